@@ -34,6 +34,7 @@ def run(ctx):
     R3 = rep.rule('C16.R3', 'no mutable access to the shared bytes through any impl or public function', floor=2)
     R4 = rep.rule('C16.R4', 'UTF-8 discipline of every SharedString construction', floor=4)
     R5 = rep.rule('C16.R5', 'comparison / ordering / hashing delegate to the slice, argument order preserved', floor=10)
+    R6 = rep.rule('C16.R6', 'the raw-memory operations of utils::bytes are a closed table: every one of them is covered by R1 / R2 / R4', floor=1)
     rep.assumptions += ['a Vec with capacity 0 is freed through get_inner_layout(0), assumed equal to Layout::new::<Inner>() (Layout::extend arithmetic)']
     for cfg, F in ctx.cfgs():
         r1(R1, cfg, F)
@@ -41,8 +42,45 @@ def run(ctx):
         r3(R3, cfg, F)
         r4(R4, cfg, F, ctx.cfg_features[cfg])
         r5(R5, cfg, F)
-        for r in (R1, R2, R3, R4, R5):
+        r6(R6, cfg, F)
+        for r in (R1, R2, R3, R4, R5, R6):
             r.finish_cfg(cfg)
+
+
+RAW_OPS = re.compile(
+    r'^std::alloc::(alloc|alloc_zeroed|realloc|dealloc)$|Layout::from_size_align_unchecked$'
+    r'|^std::ptr::(copy|copy_nonoverlapping|write|write_bytes|write_unaligned|write_volatile|read|read_unaligned|read_volatile|swap|swap_nonoverlapping|replace|drop_in_place)$'
+    r'|^std::ptr::(mut_ptr|const_ptr)::<impl \*(mut|const) T>::(add|sub|offset|byte_add|byte_sub|byte_offset|write|write_bytes|write_unaligned|read|read_unaligned|copy_from|copy_from_nonoverlapping|copy_to|copy_to_nonoverlapping|drop_in_place|replace|swap|as_ref|as_mut)$'
+    r'|^std::slice::from_raw_parts(_mut)?$|^std::ptr::slice_from_raw_parts(_mut)?$'
+    r'|^std::vec::Vec::<T(, A)?>::(from_raw_parts|from_raw_parts_in|set_len|as_mut_ptr|spare_capacity_mut|into_raw_parts)$'
+    r'|^std::string::String::(from_raw_parts|from_utf8_unchecked|as_mut_vec)$|^std::str::(from_utf8_unchecked|from_utf8_unchecked_mut)$|as_bytes_mut$'
+    r'|^std::mem::MaybeUninit::<T>::(assume_init|assume_init_ref|assume_init_mut|assume_init_read|assume_init_drop|uninit|zeroed)$'
+    r'|^std::mem::(transmute|transmute_copy|zeroed|uninitialized|forget)$|^std::intrinsics::'
+    r'|^std::ptr::NonNull::<T>::(new_unchecked|as_mut)$|::get_unchecked(_mut)?$|^std::boxed::Box::<T(, A)?>::(from_raw|into_raw|leak|from_raw_in)$')
+# confirmed on the reference tree (each is the subject of a clause of R1: allocation / copy / free / Deref; or of R4)
+RAW_REFERENCE = {
+    'std::alloc::alloc', 'std::alloc::dealloc', 'std::alloc::Layout::from_size_align_unchecked', 'std::ptr::copy_nonoverlapping',
+    'std::ptr::mut_ptr::<impl *mut T>::add', 'std::ptr::mut_ptr::<impl *mut T>::write', 'std::slice::from_raw_parts',
+    'std::vec::Vec::<T>::from_raw_parts', 'std::str::from_utf8_unchecked',
+}
+
+
+def r6(R6, cfg, F):
+    """R1 / R2 / R4 prove their clauses for the raw operations that exist.  A raw operation of another kind that appears in
+    the module (Vec::set_len over a buffer filled through a pointer, a second way to build the slice, a transmute ..)
+    is outside of every one of those arguments: unclassified until somebody looks at it."""
+    n = 0
+    for b in F.fn_bodies():
+        if not re.match(r'^<?utils::(bytes|string)::', b.path) and not re.search(r' for utils::(bytes|string)::|<utils::(bytes|string)::', b.path):
+            continue
+        for c in b.calls():
+            if c.callee and not c.exp and RAW_OPS.search(c.callee.best):
+                n += 1
+                R6.check(c.callee.best in RAW_REFERENCE, cfg, b.path, 'raw-operation:' + c.callee.best,
+                         '`%s` in %s: a raw-memory operation that none of the C16 arguments covers (the allocation / copy / free table, the reference count and the UTF-8 discipline are proved for %s only)'
+                         % (c.callee.best, b.path, sorted(x.split('::')[-1] for x in RAW_REFERENCE)), c.loc())
+    if n == 0:
+        R6.missing(cfg, 'raw operations in utils::bytes')
 
 
 def inner_agg(b):
